@@ -2,6 +2,7 @@
 port for lifecycle histories, a self-closing device."""
 from collections import deque
 
+from mido import Message
 from mido.ports import BaseInput, BaseIOPort, BaseOutput
 
 
@@ -81,14 +82,17 @@ class RecordingPort(BaseIOPort):
                first _receive() call made when at least close_at messages have
                been taken in (after taking in that call's batch); None = never
     send_fail  number of _send calls after which _send raises OSError
+    recv_fail  (k, n): the k-th to (k+n-1)-th _receive calls raise OSError
     """
 
-    def _open(self, log=None, dev=(), batch=1, close_at=None, send_fail=None, label='rec', **kwargs):
+    def _open(self, log=None, dev=(), batch=1, close_at=None, send_fail=None, label='rec', recv_fail=None, **kwargs):
         self.log = log if log is not None else []
         self.dev = list(dev)
         self.batch = batch
         self.close_at = close_at
         self.send_fail = send_fail
+        self.recv_fail = recv_fail      # (first failing _receive call, how many calls fail) or None
+        self.nrecv = 0
         self.label = label
         self.taken = 0
         self.nsend = 0
@@ -105,6 +109,9 @@ class RecordingPort(BaseIOPort):
 
     def _receive(self, block=True):
         self.log.append((self.label, '_receive', block))
+        self.nrecv += 1
+        if self.recv_fail is not None and self.recv_fail[0] <= self.nrecv < self.recv_fail[0] + self.recv_fail[1]:
+            raise OSError('device read failed')
         for _ in range(self.batch):
             if self.dev:
                 m = self.dev.pop(0)
@@ -112,3 +119,20 @@ class RecordingPort(BaseIOPort):
                 self.taken += 1
         if self.close_at is not None and self.taken >= self.close_at and not self.closed:
             self.close()
+
+
+class DirectPort(RecordingPort):
+    """A port type that, like mido.backends.rtmidi.Output, overrides send()
+    itself (to bypass the base class lock) and leaves _send() as the inherited
+    no-op.  Everything the base class sends on its own account - reset(),
+    panic(), the autoreset burst of close() - has to go through send()."""
+    _locking = False
+    _send = BaseIOPort._send
+
+    def send(self, msg):
+        if not isinstance(msg, Message):
+            raise TypeError('argument to send() must be a Message')
+        if self.closed:
+            raise ValueError('send() called on closed port')
+        RecordingPort._send(self, msg.copy())
+
